@@ -296,7 +296,7 @@ func propC14(t veriflib.TB, outer *testing.T, c c14Case) {
 	var viol string
 	var nt bool
 	var classes, oplog []string
-	synctest.Test(outer, func(st *testing.T) {
+	veriflib.Bubble(outer, "C14", "C14/manager", c, func(st *testing.T) {
 		viol, nt, classes = c14Run(c, &oplog)
 	})
 	if viol != "" {
